@@ -197,6 +197,7 @@ class Built:
         want2 = [m for m in members if raw_big(m)]
         blocks = [symbolic_mode, rule_mode]
         busy = []
+        built3 = []
 
         def probe():
             if busy or not members:
@@ -222,11 +223,15 @@ class Built:
                 # ... and a query BUILT by the predicate body itself (inside a block it opens, with a Predicate subclass
                 # as its condition) is a query of its own: the expression contexts that are open around the outer
                 # evaluate() - `with symbolic_mode(q):`, `with rule_mode(q):` - are not its context
-                with symbolic_mode():
-                    pz3 = let(cls0, list(members), name='probe3')
-                    cond3 = big(pz3) if blocks[0] is symbolic_mode else big(o=pz3)     # positionally / by keyword in turn
-                    q3 = an(entity(pz3, cond3))
-                rows3 = list(q3.evaluate())
+                # (built ONCE per evaluated configuration - by the first predicate call of the first evaluation, i.e. while
+                #  the outer evaluate() runs under the configuration's ambient block - and evaluated on every call: building a
+                #  query per predicate call makes the thorough tier hold millions of expression nodes)
+                if not built3:
+                    with symbolic_mode():
+                        pz3 = let(cls0, list(members), name='probe3')
+                        cond3 = big(pz3) if blocks[0] is symbolic_mode else big(o=pz3)     # positionally / by keyword in turn
+                        built3.append(an(entity(pz3, cond3)))
+                rows3 = list(built3[0].evaluate())
                 if len(rows3) != len(want2) or any(r is not m for r, m in zip(rows3, want2)):
                     raise ModeLeak('a query built and evaluated by a predicate body returned %r, expected %d rows'
                                    % ([type(r).__name__ for r in rows3], len(want2)))
